@@ -482,6 +482,12 @@ def simplify(e):
         return e
 
 
+def _expand(f, e, at):
+    from ..dataflow import expand
+    from ..loader import enclosing_stmt
+    return None if e is None else expand(f.node, e, enclosing_stmt(at))
+
+
 def r06_4(ck):
     ck.rule('R06.4', 'same store on both sides: the Defer captures the '
             'process path and the topology of the store whose view produced '
@@ -518,9 +524,9 @@ def r06_4(ck):
                'invert_topology delegates to inverse_topology',
                'invert_topology no longer calls inverse_topology')
     for c in calls:
-        a0 = simplify(A.arg_of(c, 0, 'outer'))
-        a1 = simplify(A.arg_of(c, 1, 'update'))
-        a2 = simplify(A.arg_of(c, 2, 'topology'))
+        a0 = simplify(_expand(it, A.arg_of(c, 0, 'outer'), c))
+        a1 = simplify(_expand(it, A.arg_of(c, 1, 'update'), c))
+        a2 = simplify(_expand(it, A.arg_of(c, 2, 'topology'), c))
         # path, topology = args
         def from_args(e, idx):
             e = simplify(resolve_local(it.node, e, c))
